@@ -209,6 +209,15 @@ def _field_size(field, type_definition):
     return size * type_definition.addressable_unit
 
 
+def _integer_bound(bound):
+    """Returns an inferred bound as a number; unbounded sizes are infinite."""
+    if bound == "infinity":
+        return float("inf")
+    if bound == "-infinity":
+        return -float("inf")
+    return int(bound)
+
+
 def _check_type_requirements_for_field(
     type_ir, type_definition, field, ir, source_file_name, errors
 ):
@@ -218,11 +227,11 @@ def _check_type_requirements_for_field(
 
     if field.type.has_field("atomic_type"):
         field_min_size = (
-            int(field.location.size.type.integer.minimum_value)
+            _integer_bound(field.location.size.type.integer.minimum_value)
             * type_definition.addressable_unit
         )
         field_max_size = (
-            int(field.location.size.type.integer.maximum_value)
+            _integer_bound(field.location.size.type.integer.maximum_value)
             * type_definition.addressable_unit
         )
         field_is_atomic = True
